@@ -9,7 +9,8 @@ THEOREMS = ["C14_message_touches_only_its_run", "C14_close_run_frame", "C14_open
             "C14_runs_well_formed_separately", "C14_set_run_key_wrapper", "C14_set_run_key_nested"]
 COQ_IMPORTS = dc.COQ_IMPORTS + "\nFrom BV Require Import Pure.RunKey."
 RULE = dc.RULE + (" || set_run_key_wrapper / set_run_key_decorator: the REAL functions over all message lists of length <= 3 and random "
-                  "longer ones with run keys from {None, 0, '', 'a', 1}, one wrapper and two nested, every key pair")
+                  "longer ones with run keys from {None, 0, '', 'a', 1}, one wrapper and two nested, every key pair || ORACLE ONLY: baseline readings "
+                  "(SupplementalData / baseline_wrapper) around 2-3 keyed runs open at once, nested and interleaved, every ordered key pair")
 
 KEYS = [None, 0, "", "a", 1]          # 0 and '' are falsy but perfectly valid run keys
 
@@ -40,8 +41,107 @@ def runkey_cases(rng, tier):
     return out
 
 
+def baseline_cases(rng, tier):
+    """ORACLE ONLY (the preprocessors are not in the engine model): the REAL RunEngine with baseline readings inserted by
+    SupplementalData / baseline_wrapper around open_run and close_run of several keyed runs open at once"""
+    import itertools
+    out = []
+    pairs = [list(p) for p in itertools.permutations(KEYS, 2)]
+    triples = [[None, 0, "a"], [0, "", 1], ["a", 0, None], ["", 1, "a"]]
+    for keys in pairs + triples:
+        for nested in (False, True):
+            for via in ("sd", "wrapper"):
+                if tier == "quick" and via == "wrapper" and (len(str(keys)) + nested) % 2:
+                    continue
+                out.append({"kind": "baseline", "keys": [key_code(k) for k in keys], "nested": nested, "via": via,
+                            "tag": "baseline %s" % via})
+    return out
+
+
 def cases(rng, tier):
-    return dc.cases(rng, tier) + runkey_cases(rng, tier)
+    return dc.cases(rng, tier) + runkey_cases(rng, tier) + baseline_cases(rng, tier)
+
+
+_KEY_OF_CODE = {None: None, 0: 0, 1: "", 2: "a", 3: 1}
+
+
+class _Det:
+    parent = None
+
+    def __init__(self, name):
+        self.name = name
+
+    def read(self):
+        return {self.name: {"value": 1.0, "timestamp": 0.0}}
+
+    def describe(self):
+        return {self.name: {"source": "sim", "dtype": "number", "shape": []}}
+
+    def read_configuration(self):
+        return {}
+
+    def describe_configuration(self):
+        return {}
+
+
+def run_baseline(case):
+    from bluesky import RunEngine
+    from bluesky import plan_stubs as bps
+    from bluesky import preprocessors as bpp
+    det, base = _Det("det"), _Det("base")
+    keys = [_KEY_OF_CODE[c] for c in case["keys"]]
+
+    def keyed(plan, key):
+        return plan if key is None else bpp.set_run_key_wrapper(plan, key)
+
+    def plan():
+        for i, k in enumerate(keys):
+            yield from keyed(bps.open_run(md={"idx": i}), k)
+        for k in keys:
+            yield from keyed(bps.trigger_and_read([det]), k)
+        for k in (reversed(keys) if case["nested"] else keys):
+            yield from keyed(bps.close_run(), k)
+    docs = []
+    RE = RunEngine({}, context_managers=[])
+    p = plan()
+    if case["via"] == "sd":
+        RE.preprocessors.append(bpp.SupplementalData(baseline=[base]))
+    else:
+        p = bpp.baseline_wrapper(p, [base])
+    err = None
+    try:
+        RE(p, lambda name, doc: docs.append((name, doc)))
+    except Exception as e:  # noqa: BLE001
+        err = "%s: %s" % (type(e).__name__, e)
+    start_idx = {d["uid"]: d.get("idx") for n, d in docs if n == "start"}
+    desc = {d["uid"]: (start_idx.get(d["run_start"]), d["name"]) for n, d in docs if n == "descriptor"}
+    events = [list(desc.get(d["descriptor"], (None, "?"))) + [d["seq_num"]] for n, d in docs if n == "event"]
+    stops = [[start_idx.get(d["run_start"]), d["exit_status"], dict(d.get("num_events", {}))] for n, d in docs if n == "stop"]
+    return {"err": err, "starts": sorted(x for x in start_idx.values() if x is not None), "events": events, "stops": stops,
+            "state": RE.state}
+
+
+def oracle_baseline(case, obs):
+    n = len(case["keys"])
+    if obs["err"] is not None:
+        return "a valid plan with %d keyed runs open at once was rejected: %s" % (n, obs["err"])
+    if obs["starts"] != list(range(n)):
+        return "runs started: %r, expected one per key" % (obs["starts"],)
+    for i in range(n):
+        ev = [e for e in obs["events"] if e[0] == i]
+        nb = sorted(e[2] for e in ev if e[1] == "baseline")
+        npri = sorted(e[2] for e in ev if e[1] == "primary")
+        if nb != [1, 2] or npri != [1]:
+            return ("run %d (key code %r) holds baseline events %r and primary events %r; expected seq_nums [1, 2] (the readings "
+                    "around ITS open_run and close_run) and [1]" % (i, case["keys"][i], nb, npri))
+        st = [s for s in obs["stops"] if s[0] == i]
+        if len(st) != 1 or st[0][1] != "success" or st[0][2] != {"baseline": 2, "primary": 1}:
+            return "run %d (key code %r): stop documents %r" % (i, case["keys"][i], st)
+    if any(e[0] is None for e in obs["events"]):
+        return "an event references a descriptor of no known run"
+    if obs["state"] != "idle":
+        return "engine left in state %r" % obs["state"]
+    return None
 
 
 def run_runkey(case):
@@ -72,12 +172,15 @@ def run_runkey(case):
 
 
 def impl_batch(cases_):
-    plain = [c for c in cases_ if c.get("kind") != "runkey"]
+    plain = [c for c in cases_ if c.get("kind") not in ("runkey", "baseline")]
     obs = dict(zip((dc.case_key(c) for c in plain), ec.impl_batch(plain)))
-    return [run_runkey(c) if c.get("kind") == "runkey" else obs[dc.case_key(c)] for c in cases_]
+    special = {"runkey": run_runkey, "baseline": run_baseline}
+    return [special[c["kind"]](c) if c.get("kind") in special else obs[dc.case_key(c)] for c in cases_]
 
 
 def coq_term(case, obs):
+    if case.get("kind") == "baseline":
+        return None
     if case.get("kind") != "runkey":
         return dc.coq_term(case, obs)
 
@@ -90,6 +193,8 @@ def coq_term(case, obs):
 
 
 def oracle(case, obs):
+    if case.get("kind") == "baseline":
+        return oracle_baseline(case, obs)
     if case.get("kind") == "runkey":
         # every message arrives, in order, unchanged but for the run key: a key that was set (0 and '' included)
         # is kept, an unset one becomes the key of the innermost wrapper
@@ -116,10 +221,12 @@ def finding(case, obs):
 
 
 def describe(case):
-    return "runkey" if case.get("kind") == "runkey" else ec.describe(case)
+    return case["kind"] if case.get("kind") in ("runkey", "baseline") else ec.describe(case)
 
 
 def nontrivial(case, obs):
+    if case.get("kind") == "baseline":
+        return True
     if case.get("kind") == "runkey":
         return any(k is not None for k in case["msgs"]) and len(case["keys"]) == 2
     keys = {o[2]["run"] for o in obs.get("obs", []) if o[0] == "msg" and o[2]["cmd"] == "open_run"}
